@@ -60,6 +60,10 @@ func (exec *Executor) executeItemOptUnwrapResult(
 		}
 
 		for _, item := range seq.list {
+			if err := interrupted(ctx); err != nil {
+				return statusFailed, err
+			}
+
 			switch item := item.(type) {
 			case []any:
 				// Unwrapping only copies the elements; it fails only if
